@@ -69,6 +69,16 @@ check("C06", "exploration",
       "deterministic simulation with fault injection: seeded schedule/fault/crash/stale-read search, invariants at every committed request and every step",
       "§7 C06")
 
+check("C13", "exploration",
+      "Seeded deterministic simulation of the real engine.ControllerEngine, StoppableSource, InformerTrackingCache and watch.GarbageCollector driven by 2-4 concurrent client tasks issuing random Start/Stop/IsRunning/StartWatches/StopWatches/GetWatches/collector/informer-removal sequences. "
+      "The repo's own lock discipline is explored as written: a build-time overlay rewrites sync.RWMutex in internal/engine/{engine,cache}.go (copied from the current tree) to scheduler-visible locks with Go's RWMutex semantics (writer preference), so the tape decides every interleaving at lock and informer-call granularity. "
+      "Oracles: a state with blocked tasks and no grantable request is a deadlock; the Start/Stop/IsRunning history (stamped with scheduler sequence numbers) must be linearizable against a boolean register per controller (porcupine); after every successful StartWatches each requested kind has a live handler; "
+      "at quiescence no stopped controller object keeps a handler or an uncancelled context, no controller has more live handlers than listed watches, no watch is listed twice; sequential probes check re-establishment after informer removal and that the collector stops exactly the unreferenced composed-resource watches and never the XR or revision watch. "
+      "The thorough tier re-runs the harness under the Go race detector.",
+      TB + " Code between two lock/informer calls runs atomically in the simulation; data races on unsynchronised state are only observed by the race-detector build for the schedules it happens to run. The controller-runtime controller and cache are stubs.",
+      "deterministic simulation: seeded interleaving search at overlay-instrumented lock points, deadlock detection, porcupine linearizability of the recorded history, quiescent-state invariants",
+      "§7 C13")
+
 def main():
     props = [json.loads(l)["id"] for l in open(os.path.join(V, "properties.jsonl"))]
     na = []
